@@ -13,7 +13,9 @@ pub fn to_jer_identifier(identifier: &str) -> String {
     identifier.replace('-', "_")
 }
 
-pub fn type_to_tokens(ty: &ASN1Type) -> String {
+/// Renders the JER shape of `ty`. `extensibility_implied` tells whether the module
+/// of the type carries the `EXTENSIBILITY IMPLIED` default.
+pub fn type_to_tokens(ty: &ASN1Type, extensibility_implied: bool) -> String {
     match ty {
         ASN1Type::Null => String::from("null"),
         ASN1Type::Boolean(_) => String::from("boolean"),
@@ -34,9 +36,13 @@ pub fn type_to_tokens(ty: &ASN1Type) -> String {
             .map(|m| format!(r#""{}""#, m.name))
             .collect::<Vec<_>>()
             .join(" | "),
-        ASN1Type::Choice(c) => format_choice_options(c),
-        ASN1Type::Set(se) | ASN1Type::Sequence(se) => format_sequence_or_set_members(se),
-        ASN1Type::SetOf(s) | ASN1Type::SequenceOf(s) => array_of(&type_to_tokens(&s.element_type)),
+        ASN1Type::Choice(c) => format_choice_options(c, extensibility_implied),
+        ASN1Type::Set(se) | ASN1Type::Sequence(se) => {
+            format_sequence_or_set_members(se, extensibility_implied)
+        }
+        ASN1Type::SetOf(s) | ASN1Type::SequenceOf(s) => {
+            array_of(&type_to_tokens(&s.element_type, extensibility_implied))
+        }
         ASN1Type::ElsewhereDeclaredType(e) => to_jer_identifier(&e.identifier),
         _ => String::from("any"),
     }
@@ -52,7 +58,7 @@ pub fn array_of(element: &str) -> String {
     }
 }
 
-pub fn format_choice_options(choice: &Choice) -> String {
+pub fn format_choice_options(choice: &Choice, extensibility_implied: bool) -> String {
     choice
         .options
         .iter()
@@ -60,14 +66,14 @@ pub fn format_choice_options(choice: &Choice) -> String {
             format!(
                 r#"{{{}: {}}}"#,
                 to_jer_identifier(&m.name),
-                type_to_tokens(&m.ty)
+                type_to_tokens(&m.ty, extensibility_implied)
             )
         })
         .collect::<Vec<_>>()
         .join(" | ")
 }
 
-pub fn format_sequence_or_set_members(se: &SequenceOrSet) -> String {
+pub fn format_sequence_or_set_members(se: &SequenceOrSet, extensibility_implied: bool) -> String {
     format!(
         r#"{{
             {}{}
@@ -82,12 +88,15 @@ pub fn format_sequence_or_set_members(se: &SequenceOrSet) -> String {
                 } else {
                     ""
                 },
-                type_to_tokens(&m.ty)
+                type_to_tokens(&m.ty, extensibility_implied)
             ))
             .collect::<Vec<_>>()
             .join("\n"),
-        se.extensible
-            .map_or(String::new(), |_| String::from("\n\t[key: string]: any"))
+        if se.extensible.is_some() || extensibility_implied {
+            "\n\t[key: string]: any"
+        } else {
+            ""
+        }
     )
 }
 
